@@ -39,6 +39,9 @@ ASSUMPTIONS = ["host is little-endian; JPEG and IMCOMP images are outside the eq
                "8-bit unsigned images of 1 or 3 components",
                "record variables of one file share one record count (the netCDF-style calls know a single record "
                "dimension per file and present every record variable with the largest count)",
+               "bare Raster-8 files (RI8/ID8/IP8 without RIG): a palette stays in effect for the following images "
+               "(the 8-bit calls apply it, GR shows it only with the image it was stored with), so generated files "
+               "give every image after the first palette its own",
                "one label and one description per object (the DFAN calls return the first one only); annotation "
                "order within one kind is not compared"]
 
@@ -125,6 +128,38 @@ def gen_img(r):
     return {"kind": "img", "w": w, "ril": r.choice([-1, 0, 1, 2]), "objs": ims}
 
 
+def gen_rawsds(r):
+    """an old-style file assembled from the Coq record writers: SDG form (float32 only) or NDG form"""
+    form = r.choice(["sdg", "ndg"])
+    ds = []
+    for _ in range(r.choice([1, 2, 3])):
+        rank = r.choice([1, 2, 3])
+        dims = [r.choice([1, 2, 3, 4]) for _ in range(rank)]
+        nt = 5 if form == "sdg" else r.choice(list(BASES)) | r.choice([0, 0, 0x4000])
+        ne = 1
+        for d in dims:
+            ne *= d
+        ds.append({"dims": dims, "unl": False, "nt": nt, "data": rbytes(r, ne * BASES[nt & 255])})
+    return {"kind": "rawsds", "form": form, "objs": ds}
+
+
+def gen_rawimg(r):
+    form = r.choice(["rig", "ri8"])
+    ims = []
+    for _ in range(r.choice([1, 2, 3])):
+        x, y = r.choice([1, 2, 3, 4, 5]), r.choice([1, 2, 3, 4])
+        nc = 1 if form == "ri8" else r.choice([1, 1, 3])
+        il = 0
+        # GR names the component type of a bare Raster-8 image DFNT_UINT8, of a RIG image what its NT record says
+        # (in the bare Raster-8 convention a palette stays in effect for the images that follow it: once one image
+        #  has a palette, the later ones of the file get their own)
+        sticky = form == "ri8" and any(m["pal"] for m in ims)
+        ims.append({"x": x, "y": y, "nc": nc, "nt": 21 if form == "ri8" else 3, "il": il, "comp": 0,
+                    "data": rbytes(r, x * y * nc),
+                    "pal": rbytes(r, 768) if (nc == 1 and (sticky or r.random() < 0.5)) else None})
+    return {"kind": "rawimg", "form": form, "ril": r.choice([-1, 0]), "objs": ims}
+
+
 def gen_pal(r):
     return {"kind": "pal", "objs": [rbytes(r, 768) for _ in range(r.choice([1, 2, 3]))]}
 
@@ -173,6 +208,17 @@ def emit(cid, c):
         return " ".join(t)
     if k == "legacy":
         return "%s legacy %s" % (cid, c["path"])
+    if k == "rawsds":
+        t = ["%s rawsds %s %d" % (cid, c["form"], len(c["objs"]))]
+        for d in c["objs"]:
+            t.append("%d %s %d %s" % (len(d["dims"]), " ".join(map(str, d["dims"])), d["nt"], hexs(d["data"])))
+        return " ".join(t)
+    if k == "rawimg":
+        t = ["%s rawimg %s %d %d" % (cid, c["form"], c["ril"], len(c["objs"]))]
+        for m in c["objs"]:
+            t.append("%d %d %d %d %d %d %s %s" % (m["x"], m["y"], m["nc"], m["nt"], m["il"], m["comp"], hexs(m["data"]),
+                                                   hexs(m["pal"]) if m["pal"] else "-"))
+        return " ".join(t)
     if k == "text":
         return cid + " " + c["text"]
     raise ValueError(k)
@@ -228,6 +274,28 @@ def parse_case(line):
         return cid, {"kind": "ann", "w": w, "objs": objs}
     if k == "legacy":
         return cid, {"kind": "legacy", "path": nx()}
+    if k == "rawsds":
+        form = nx()
+        n = int(nx())
+        objs = []
+        for _ in range(n):
+            rank = int(nx())
+            dims = [int(nx()) for _ in range(rank)]
+            nt = int(nx())
+            h = nx()
+            objs.append({"dims": dims, "unl": False, "nt": nt, "data": list(bytes.fromhex(h)) if h != "-" else []})
+        return cid, {"kind": "rawsds", "form": form, "objs": objs}
+    if k == "rawimg":
+        form = nx()
+        ril = int(nx())
+        n = int(nx())
+        objs = []
+        for _ in range(n):
+            x, y, nc, nt, il, comp = [int(nx()) for _ in range(6)]
+            h, p_ = nx(), nx()
+            objs.append({"x": x, "y": y, "nc": nc, "nt": nt, "il": il, "comp": comp,
+                         "data": list(bytes.fromhex(h)) if h != "-" else [], "pal": list(bytes.fromhex(p_)) if p_ != "-" else None})
+        return cid, {"kind": "rawimg", "form": form, "ril": ril, "objs": objs}
     return cid, {"kind": "text", "text": " ".join(t[1:])}
 
 
@@ -246,17 +314,24 @@ def by_case(lines):
 def run_cases(ctx, cases, tag):
     """cases: list of (cid, case).  Returns (R, S) dicts cid -> list of lines (without the id)."""
     exe = ctx.harness("drive_mix", ["drive_mix.c"])
-    mod = ctx.model("mix_model", ["mix_main.ml"], ["mix_spec", "mix_model"])
+    mod = ctx.model("mix_model", ["mix_main.ml"], ["mix_model"])
     wd = os.path.join(ctx.bdir, "harness", "c15-%s-%d" % (tag, os.getpid()))
     shutil.rmtree(wd, ignore_errors=True)
     os.makedirs(wd)
     p = os.path.join(wd, "cases.in")
     with open(p, "w") as fh:
         fh.write("\n".join(emit(cid, c) for cid, c in cases) + "\n")
-    rc, R = vc.run_lines(exe, p, timeout=1500, args=[wd])
     rcs, S = vc.run_lines(mod, p, timeout=900)
     if rcs != 0:
         raise vc.BuildError("model driver failed rc=%d: %s" % (rcs, "\n".join(S[-5:])))
+    # the record writers' files (RAW lines) become harness cases
+    rawline = {l.split(" ", 2)[0]: l.split(" ", 2)[2] for l in S if " RAW " in l[:40]}
+    S = [l for l in S if " RAW " not in l[:40]]
+    ph = os.path.join(wd, "harness.in")
+    with open(ph, "w") as fh:
+        for cid, c in cases:
+            fh.write((cid + " " + rawline[cid] if cid in rawline else emit(cid, c)) + "\n")
+    rc, R = vc.run_lines(exe, ph, timeout=1500, args=[wd])
     noise = [l for l in R if not re.match(r"^\S+ (w|rec|end|crash|dfsd|sd|sdn|nc|vg|vgi|dfr8|df24|gr|grr|dfp|dfan|an|legacy) ", l + " ")]
     Rd = by_case([l for l in R if l not in noise])
     Sd = by_case(S)
@@ -264,9 +339,10 @@ def run_cases(ctx, cases, tag):
     p2 = os.path.join(wd, "recs.in")
     with open(p2, "w") as fh:
         for cid, c in cases:
-            recs = [l.split() for l in Rd.get(cid, []) if l.startswith("rec ")]
-            if recs and c["kind"] in ("sds", "img", "legacy"):
-                fh.write("%s recs %d %s\n" % (cid, len(recs), " ".join("%s %s %s %s" % (t[1], t[2], t[4], t[5]) for t in recs)))
+            recs = [t for t in (l.split() for l in Rd.get(cid, []) if l.startswith("rec ")) if len(t) == 6 and t[4].lstrip("-").isdigit()]
+            if recs and c["kind"] in ("sds", "img", "legacy", "pal"):
+                fh.write("%s recs %d %s\n" % (cid, len(recs), " ".join("%s %s %s %s" % ((t[1], t[2], t[4], t[5]) if re.fullmatch(r"[0-9a-f]+|-", t[5]) else (t[1], t[2], "1", "-"))
+                                                                     for t in recs)))
     rcm, M = vc.run_lines(mod, p2, timeout=900)
     if rcm != 0:
         raise vc.BuildError("model driver (records) failed rc=%d: %s" % (rcm, "\n".join(M[-5:])))
@@ -399,7 +475,7 @@ def compare_legacy(R):
 # --------------------------------------------------------------------------------------------
 def shrinks(c):
     """smaller variants of a case"""
-    if c["kind"] not in ("sds", "img", "pal", "ann"):
+    if c["kind"] not in ("sds", "img", "pal", "ann", "rawsds", "rawimg"):
         return
     objs = c["objs"]
     if len(objs) > 1:
@@ -407,7 +483,7 @@ def shrinks(c):
             d = dict(c)
             d["objs"] = objs[:i] + objs[i + 1:]
             yield d
-    if c["kind"] == "sds":
+    if c["kind"] in ("sds", "rawsds"):
         for i, o in enumerate(objs):
             for j, dim in enumerate(o["dims"]):
                 if dim > 1:
@@ -420,7 +496,7 @@ def shrinks(c):
                     d = dict(c)
                     d["objs"] = objs[:i] + [o2] + objs[i + 1:]
                     yield d
-    if c["kind"] == "img":
+    if c["kind"] in ("img", "rawimg"):
         for i, o in enumerate(objs):
             for key in ("x", "y"):
                 if o[key] > 1:
@@ -505,6 +581,10 @@ def run(ctx):
         cases.append(("p%d" % i, gen_pal(r)))
     for i in range(40 * nq):
         cases.append(("a%d" % i, gen_ann(r)))
+    for i in range(25 * nq):
+        cases.append(("rs%d" % i, gen_rawsds(r)))
+    for i in range(25 * nq):
+        cases.append(("ri%d" % i, gen_rawimg(r)))
     leg = legacy_files()
     for i, p in enumerate(leg):
         cases.append(("L%d" % i, {"kind": "legacy", "path": p}))
